@@ -48,7 +48,8 @@ func (o *sink) line(format string, a ...any) { fmt.Fprintf(o.f, format+"\n", a..
 func (o *sink) Hit(k string)                 { o.line("#hit %s", k) }
 
 const (
-	watchdog  = 4 * time.Second
+	watchdog  = 2 * time.Second
+	maxHungCases = 3
 	sentinel  = ^uint64(0)
 	midDur    = 80 * time.Millisecond
 	midSleep  = 130 * time.Millisecond
@@ -178,6 +179,16 @@ type caseRun struct {
 	skewed   bool
 	allowMid bool
 	quitInOffer bool
+	// a free worker was made to exit while the dispatcher was about to offer
+	// it the head job (a hang after that is reported with this tag)
+	exitedWhileOffered bool
+}
+
+func (c *caseRun) hangObs() string {
+	if c.exitedWhileOffered {
+		return "HANG after-exit-while-offered"
+	}
+	return "HANG"
 }
 
 func verdictName(err error) string {
@@ -276,6 +287,7 @@ func (c *caseRun) handleOffer(oc orderCall, quitting bool) {
 	var rest []*workerT
 	for _, w := range live {
 		if c.rng.Intn(100) < 4 {
+			c.exitedWhileOffered = true
 			c.exitWorker(w, "exit.while-offered")
 		} else {
 			rest = append(rest, w)
@@ -300,7 +312,7 @@ func (c *caseRun) handleOffer(oc orderCall, quitting bool) {
 	cases = append(cases, reflect.SelectCase{Dir: reflect.SelectRecv, Chan: reflect.ValueOf(time.After(watchdog))})
 	i, v, _ := reflect.Select(cases)
 	if i == len(rest) {
-		c.emit("accept 0", "HANG")
+		c.emit("accept 0", c.hangObs())
 		c.hung = true
 		return
 	}
@@ -408,7 +420,7 @@ func (c *caseRun) doQuit() {
 	done := make(chan struct{})
 	go func() { c.wm.Stop(); close(done) }()
 	if !c.service(done, true) {
-		c.emit("quit", "HANG")
+		c.emit("quit", c.hangObs())
 		c.hung = true
 		return
 	}
@@ -453,7 +465,7 @@ func (c *caseRun) doBatch(n int, nrm bool, mr int, prog bool, hard string) {
 		case <-done:
 		case <-time.After(watchdog):
 			c.hung = true
-			c.emit(op, "HANG")
+			c.emit(op, c.hangObs())
 			return
 		}
 		c.batches = append(c.batches, b)
@@ -469,7 +481,7 @@ func (c *caseRun) doBatch(n int, nrm bool, mr int, prog bool, hard string) {
 	}
 	if c.hung {
 		c.pending = nil
-		c.emit(op, "HANG")
+		c.emit(op, c.hangObs())
 		return
 	}
 	c.t.Hit("ev.batch")
@@ -512,7 +524,7 @@ func (c *caseRun) doPeer(id int) {
 	if !c.service(done, false) {
 		c.pending = nil
 		if !c.stopped {
-			c.emit(op, "HANG")
+			c.emit(op, c.hangObs())
 			c.hung = true
 		}
 		return
@@ -580,7 +592,7 @@ func (c *caseRun) doResult(w *workerT, kind string) {
 	if !c.service(acked, false) {
 		c.pending = nil
 		if !c.stopped {
-			c.emit(op, "HANG")
+			c.emit(op, c.hangObs())
 			c.hung = true
 		}
 		return
@@ -620,7 +632,7 @@ func (c *caseRun) doElapse(b *batchT) {
 
 func (c *caseRun) final() {
 	if c.hung {
-		c.emit("final", "HANG")
+		c.emit("final", c.hangObs())
 		return
 	}
 	c.drain()
@@ -633,7 +645,7 @@ func (c *caseRun) final() {
 
 // ---- generator ---------------------------------------------------------
 
-func runCase(t *sink, idx int, rng *rand.Rand, steps int, allowMid bool) {
+func runCase(t *sink, idx int, rng *rand.Rand, steps int, allowMid bool) (hung bool) {
 	t.line("case %d", idx)
 	c := &caseRun{t: t, rng: rng, workers: map[int]*workerT{}, reqs: map[*query.Request][2]int{},
 		peerCh: make(chan query.Peer), allowMid: allowMid}
@@ -772,9 +784,10 @@ func runCase(t *sink, idx int, rng *rand.Rand, steps int, allowMid bool) {
 	if c.skewed {
 		t.Hit("case.discarded-timing-skew")
 		t.line("#discard %d", idx)
-		return
+		return false
 	}
 	t.line("#end %d", idx)
+	return c.hung
 }
 
 // caseParams derives everything random about case idx from the seed alone, so
@@ -805,9 +818,17 @@ func child(_ *tr.W, thorough bool) {
 	defer f.Close()
 	o := &sink{f: f}
 	n, mid := sizes(thorough)
+	hung := 0
 	for idx := from; idx < to; idx++ {
 		rng, steps, allowMid := caseParams(idx, n, mid)
-		runCase(o, idx, rng, steps, allowMid)
+		if runCase(o, idx, rng, steps, allowMid) {
+			// the dispatcher of that case is stuck for good (its goroutines are
+			// left behind); a few of those settle the verdict
+			if hung++; hung >= maxHungCases {
+				o.line("#abort %d cases hung", hung)
+				break
+			}
+		}
 	}
 }
 
@@ -815,6 +836,8 @@ func child(_ *tr.W, thorough bool) {
 // "dispchild" and replays the child's lines into the trace; a child that dies
 // becomes a `<event in flight> => PANIC …` observation of the running case.
 func Run(t *tr.W, thorough bool) {
+	// a HANG is never expected on a correct tree: stop after a handful
+	tr.MaxHangs = 6
 	n, _ := sizes(thorough)
 	dir, err := os.MkdirTemp("", "dispdrv")
 	if err != nil {
@@ -875,6 +898,8 @@ func Run(t *tr.W, thorough bool) {
 					open = false
 				case strings.HasPrefix(ln, "#discard "):
 					open = false
+				case strings.HasPrefix(ln, "#abort"):
+					t.Line("# child stopped: %s", ln[1:])
 				}
 			}
 			fh.Close()
